@@ -49,7 +49,7 @@ def verify(src_dir, pid, k):
         rc, out = sh(f'{PY} -m pytest -q -p no:cacheprovider -x', cwd=wt, env=env)
         tail = out.strip().splitlines()[-1] if out.strip() else ''
         rec['tests_with_change'] = tail
-        if rc or '381 passed' not in tail:
+        if rc or '381 passed' not in tail or 'warning' in tail or 'error' in tail:
             return pid, k, False, 'tests: ' + tail
         rc_m, out_m = sh(f'{PY} {demo}', cwd=wt, timeout=300, env=env)
         rec['demo_with_change_exit'] = rc_m
